@@ -64,10 +64,47 @@ Eval vm_compute in [%s].
     for (s, be, r), ok in zip(used, bs):
         if not ok: ctx.disagreement('protocol', dict(shape=s, backend=be), dict(yaml_calls=r['yaml'], pickle_calls=r['pickle'], note='differs from yaml_ops / pickle_ops of Model/Pickle.v'))
 
+def state_correspondence(ctx):
+    """set_python_instance_state and pickle's BUILD against Model/PickleState.v: every instance kind x state shape, both back-ends"""
+    from tools import c17classes as K
+    cases = [[c, s, be] for c in K.STATE_CLASSES for s in K.STATE_SHAPES for be in ('py', 'c')]
+    res = vlib.run_impl('direct', [['c17state'] + c for c in cases])
+    shape_coq = {'d0': 'SDict false', 'd1': 'SDict true', 'p00': 'SPair DEmpty false', 'p10': 'SPair DFull false', 'p01': 'SPair DEmpty true', 'p11': 'SPair DFull true', 'pN0': 'SPair DNone false', 'pN1': 'SPair DNone true'}
+    lines = []; used = []
+    for (c, s, be), r in zip(cases, res):
+        ctx.corr_count('state')
+        if not isinstance(r, dict) or r.get('outcome') != 'ok':
+            ctx.disagreement('state', dict(instance=c, shape=s, backend=be), dict(result=str(r)[:200], note='the probe did not run')); continue
+        known = {'CallSetstate', 'DictUpdate', 'SetAttrs', 'AttrError'}
+        if not set(r['yaml']) <= known or not set(r['pickle']) <= known:
+            ctx.disagreement('state', dict(instance=c, shape=s, backend=be), dict(yaml_ops=r['yaml'], pickle_ops=r['pickle'], text=r.get('text'), note='an operation outside the vocabulary of Model/PickleState.v')); continue
+        ic = '{| has_setstate := %s; has_dict := %s |}' % ('true' if r['has_setstate'] else 'false', 'true' if r['has_dict'] else 'false')
+        lines.append('(aops_eqb (yaml_apply %s (%s)) [%s] && aops_eqb (pickle_apply %s (%s)) [%s])' % (ic, shape_coq[s], '; '.join(r['yaml']), ic, shape_coq[s], '; '.join(r['pickle'])))
+        used.append((c, s, be, r))
+        ctx.case(('state', c, s, be), nontrivial=True, sample=dict(layer='state', instance=c, shape=s, backend=be, yaml_ops=r['yaml'], pickle_ops=r['pickle']))
+    if not lines: return
+    wd = os.path.join(vlib.BUILD, 'cases', 'C17_state'); os.makedirs(wd, exist_ok=True)
+    src = '''From Coq Require Import List Bool.
+Import ListNotations.
+Require Import PickleState.
+Definition aop_eqb (a b : aop) : bool := match a, b with CallSetstate, CallSetstate | DictUpdate, DictUpdate | SetAttrs, SetAttrs | AttrError, AttrError => true | _, _ => false end.
+Fixpoint aops_eqb (a b : list aop) : bool := match a, b with [], [] => true | x :: a', y :: b' => aop_eqb x y && aops_eqb a' b' | _, _ => false end.
+Eval vm_compute in [%s].
+''' % ';\n  '.join(lines)
+    open(os.path.join(wd, 'StateCases.v'), 'w').write(src)
+    rc, out = vlib.sh(['timeout', '300', 'coqc', '-R', vlib.COQ, 'YV', '-w', vlib.COQ_WARN, 'StateCases.v'], cwd=wd)
+    m = re.search(r'=\s*\[(.*?)\]\s*:\s*list bool', out, re.S)
+    if rc != 0 or not m:
+        ctx.broken.append(('corr:state', 'the Coq side failed to evaluate the state cases: ' + out[-600:])); return
+    bs = [x.strip() == 'true' for x in m.group(1).split(';')]
+    for (c, s, be, r), ok in zip(used, bs):
+        if not ok: ctx.disagreement('state', dict(instance=c, shape=s, backend=be), dict(yaml_ops=r['yaml'], pickle_ops=r['pickle'], text=r.get('text'), note='differs from yaml_apply / pickle_apply of Model/PickleState.v'))
+
 def run(ctx):
     ctx.rule = RULE
     ctx.regen(); ctx.prove()
     protocol_correspondence(ctx)
+    state_correspondence(ctx)
     cases = []
     for i in range(ctx.n(5000, 60000)):
         cases.append([ctx.seed * 100003 + i, ctx.rng.choice([1, 2, 3, 4]), ctx.rng.random() < 0.25, ctx.rng.choice(['py', 'py', 'c'])])
